@@ -226,8 +226,37 @@ def rules(chk, db):
                 v = locals_[ir.strip(r['b'])['id']]
                 init = v.get('init')
                 els = init['el'] if init and init.get('k') == 'ilist' else []
-                if is_union(db, v['t']) and len(els) == 1 and ir.strip(els[0]) is ir.strip(call) or (
-                        len(els) == 1 and any(c is call for c in ir.calls(els[0]))):
+                def unwrap(x):
+                    # conversions and copy/move construction of the integral value do not change its bits; any other call
+                    # wrapped around the helper result (a "fix-up" of the converted bits) is not accepted
+                    for _ in range(8):
+                        x = ir.strip_all_casts(x)
+                        if x.get('k') == 'ctor' and len(x.get('args', [])) == 1 and x.get('copymove'):
+                            x = x['args'][0]
+                            continue
+                        if x.get('k') == 'ilist' and len(x.get('el', [])) == 1:
+                            x = x['el'][0]
+                            continue
+                        break
+                    return x
+                inner = unwrap(els[0]) if len(els) == 1 else {}
+                # a call wrapped around the helper result is accepted only if it is the identity on its argument as a term
+                for _ in range(4):
+                    if inner is ir.strip_all_casts(call) or inner.get('k') != 'call' or len(inner.get('args', [])) != 1:
+                        break
+                    g = db.callee(f, inner)
+                    if g is None or 'body' not in g:
+                        break
+                    try:
+                        from .. import termx
+                        exq = termx.TermExec(db, g)
+                        exq.bind(g['params'][0]['id'], termx.SYM('bits'))
+                        if exq.run_body(g['body']) is not termx.SYM('bits'):
+                            break
+                    except termx.Unsupported:
+                        break
+                    inner = unwrap(inner['args'][0])
+                if is_union(db, v['t']) and len(els) == 1 and inner is ir.strip_all_casts(call):
                     good = r.get('t', '').replace('const ', '') == t
             if not good:
                 ok = False
